@@ -19,6 +19,9 @@ META = {
   "h_fail_gfa1": {"kind": "G", "functions": _FUNCS,
     "bounds": "GFA1 state (header VN/TS, S x3, L x3 incl. ID-tagged, C, P x2) after 0/1 successful prefix step; every pair of calls from a catalogue of 24 mostly failing mutations",
     "timeout": {"quick": 400, "thorough": 900}, "parts": {"quick": 16, "thorough": 16}},
+  "h_fail_header_tags": {"kind": "L/G", "functions": ["Multiline._merge/_check_single_definition/_check_datatype/add", "FieldArray._vpush", "Creators.__add_line_GFA1/__add_line_GFA2/__add_line_unknown_version"],
+    "bounds": "a Gfa (version gfa1/gfa2/undecided, vlevel 0..3) whose header holds aa once or twice (FieldArray) with datatype i; then a header line with two tags, one new (bb) and one aa with datatype i/Z/f/J or a malformed value, in both orders: if it raises, nothing of it is merged",
+    "timeout": {"quick": 200, "thorough": 400}},
   "h_fail_header_ts": {"kind": "L/G", "functions": ["Multiline._merge/_check_single_definition/add", "Creators.__add_line_GFA2"],
     "bounds": "header line 'H ab:i:1 TS:i:<n>' merged into a header holding TS:i:5, n chosen from {0,4,5,6,55,500}; also as second line 'H TS:i:<n> cd:Z:x'",
     "timeout": {"quick": 200, "thorough": 400}},
@@ -172,5 +175,31 @@ def h_fail_unknown_version(q: int, nx: int) -> bool:
       if vp.kf_active("KF-C08-version-deciding-line") and len(before["queue"]) > 0 and \
           isinstance(e, gfapy.VersionError) and before["version"] is None:
         return True
+      return not diff_obs(_obs(g), before)
+  return True
+
+
+HT_AA = ["aa:i:7", "aa:Z:x", "aa:f:1.5", "aa:J:[1]", "aa:i:x", "aa:A:xy"]
+
+def h_fail_header_tags(vi: int, vl: int, twice: bool, ai: int, first: bool) -> bool:
+  """
+  pre: 0 <= vi < 3 and 0 <= vl <= 3 and 0 <= ai < 6
+  post: _ == True
+  """
+  vp.enter("ht")
+  version = [None, "gfa1", "gfa2"][vp.concretize(vi, 0, 2)]
+  level = vp.concretize(vl, 0, 3)
+  aa = HT_AA[vp.concretize(ai, 0, 5)]
+  with NoTracing():
+    g = gfapy.Gfa(version=version, vlevel=level)
+    g.add_line("H\taa:i:1")
+    if twice: g.add_line("H\taa:i:5")
+    before = _obs(g)
+  text = "H\t" + (aa + "\tbb:i:2" if first else "bb:i:2\t" + aa)
+  try:
+    g.add_line(text)
+  except gfapy.Error:
+    vp.reached("ht", version, level, text)
+    with NoTracing():
       return not diff_obs(_obs(g), before)
   return True
